@@ -133,9 +133,9 @@ class LoopTx(ast.NodeTransformer):
         guard_body = ast.parse(f"__pv_v = __pv.loop_variant({key!r}, dict(locals()))").body + [once] + \
             ast.parse(f"if not __pv_brk:\n    __pv.loop_step({key!r}, dict(locals()), __pv_v)").body
         out.append(ast.If(test=test, body=guard_body, orelse=[]))
+        out += ast.parse(f"__pv.loop_exit({key!r}, dict(locals()), __pv_brk)").body
         if orelse:
             out.append(ast.If(test=ast.parse("not __pv_brk", mode="eval").body, body=list(orelse), orelse=[]))
-        out += ast.parse(f"__pv.loop_exit({key!r}, dict(locals()), __pv_brk)").body
         return out
 
     def visit_While(self, node):
